@@ -6,7 +6,8 @@ O2 == O1 + (NBoundPaths)
 O3 == O2 + (NOpenPaths)
 O4 == O3 + (Len(ForIdx))
 O5 == O4 + NPrefixExt
-Count == O5 + NPathEveryChar + NForIdxHist
+O6 == O5 + NPathEveryChar + NForIdxHist
+Count == O6 + NCompShapes
 ItemAt(g) ==
   IF g <= O1 THEN StringAt(g - 0)
   ELSE IF g <= O2 THEN BoundPathAt(g - O1)
@@ -14,7 +15,8 @@ ItemAt(g) ==
   ELSE IF g <= O4 THEN ForIndexAt(g - O3)
   ELSE IF g <= O5 THEN PrefixExtAt(g - O4)
   ELSE IF g <= O5 + NPathEveryChar THEN PathEveryCharAt(g - O5)
-  ELSE ForIdxHistAt(g - O5 - NPathEveryChar)
+  ELSE IF g <= O6 THEN ForIdxHistAt(g - O5 - NPathEveryChar)
+  ELSE CompShapeAt(g - O6)
 Histories == IF "VERIF_TIER" \in DOMAIN IOEnv /\ IOEnv.VERIF_TIER = "thorough" THEN 300 ELSE 40
 VARIABLE n
 INSTANCE GenBase
